@@ -461,7 +461,9 @@ package keeper
 //@ func (k Keeper) GetAllAccountVestingPools(ctx) (list)
 //@   trusted
 //@   ensures (len(list) == 0) == noPools()
-//@   ensures off(list) == 0 && (forall i: int :: {list[i].Owner} 0 <= i && i < len(list) ==> $pFound[list[i].Owner] && len(list[i].VestingPools) == $pLen[list[i].Owner]
+//@   // ... in the store's key order (ownerOrder / ownerCount: functions of the set of keys present)
+//@   ensures len(list) == ownerCount($pFound)
+//@   ensures off(list) == 0 && (forall i: int :: {list[i].Owner} 0 <= i && i < len(list) ==> $pFound[list[i].Owner] && list[i].Owner == ownerOrder($pFound, i) && len(list[i].VestingPools) == $pLen[list[i].Owner]
 //@     && (forall m: int :: {list[i].VestingPools[m]} 0 <= m && m < len(list[i].VestingPools) ==> list[i].VestingPools[m] != nil && poolEq(list[i].VestingPools[m], list[i].Owner, m)))
 //@ func (k Keeper) SetParams(ctx, p) (err)
 //@   modifies $kvHas, $kvVal
@@ -542,35 +544,48 @@ package keeper
 //@         : 0)
 //@ pred sumAccountsOf(genesisOnly, lockedPart, n) = sumAccounts($trList, 0, $accTag, $accOV, $accDV, $accStart, $accEnd,
 //@     $trGenesis, $trFromGenesisPool, $trFromGenesisAccount, genesisOnly, lockedPart, fdiv($blockTime, 1000000000), $vestingDenom, n)
+//@ // magnitudes the no-panic check (C20) assumes of the state the summaries add up
+//@ pred summaryStateSane() = validDenom($vestingDenom) && timeOK($blockTime) && $trListN <= 1000000000 && storeAmountsSane()
+//@   && 0 <= $bal[modaddr("cfevesting")][$vestingDenom] && $bal[modaddr("cfevesting")][$vestingDenom] <= 1e60 && (forall a: str :: {$accStart[a]} {$accEnd[a]} $accStart[a] <= $accEnd[a])
+//@   && (forall a: str, d: str :: {$accOV[a][d]} {$accDV[a][d]} 0 <= $accOV[a][d] && $accOV[a][d] <= E30() && 0 <= $accDV[a][d] && $accDV[a][d] <= E30())
 //@ func (k Keeper) createVestingsSummary(ctx, genesisOnly) (summary, err)
+//@   panic_requires summaryStateSane()
+//@   // the schedule arithmetic is used through vestedBounds only
+//@   opaque tquo, cvaVested
 //@   ensures summary != nil
 //@   ensures err == nil ==> !summary.VestingAllAmount.IsNil() && !summary.VestingInPoolsAmount.IsNil() && !summary.VestingInAccountsAmount.IsNil() && !summary.DelegatedVestingAmount.IsNil()
 //@   ensures [all] err == nil ==> summary.VestingAllAmount == summary.VestingInAccountsAmount + summary.VestingInPoolsAmount
 //@   ensures [pools] err == nil && !genesisOnly ==> summary.VestingInPoolsAmount == $bal[modaddr("cfevesting")][$vestingDenom]
+//@   ensures [pools-genesis] err == nil && genesisOnly ==> summary.VestingInPoolsAmount == sumGenStoreOf(ownerCount($pFound))
 //@   ensures [accounts] err == nil ==> summary.VestingInAccountsAmount == sumAccountsOf(genesisOnly, false, $trListN)
 //@   ensures [delegated] err == nil ==> summary.DelegatedVestingAmount == summary.VestingInAccountsAmount - sumAccountsOf(genesisOnly, true, $trListN)
-//@   prop C17
+//@   prop C17 C20
 //@ loop Keeper.createVestingsSummary#1
 //@   invariant 0 <= \i && \i <= len(allAcc)
 //@   invariant !allVestingInAccounts.IsNil() && allVestingInAccounts == sumAccountsOf(genesisOnly, false, \i)
 //@   invariant !allLockedNotDelegated.IsNil() && allLockedNotDelegated == sumAccountsOf(genesisOnly, true, \i)
+//@   uses forall a: str, d: str :: {$accOV[a][d]} vestedBounds($accOV[a][d], $accStart[a], $accEnd[a], fdiv($blockTime, 1000000000))
+//@   invariant summaryStateSane() ==> 0 <= allVestingInAccounts && allVestingInAccounts <= \i * E30() && 0 <= allLockedNotDelegated && allLockedNotDelegated <= \i * E30()
 
 //@ // ---- C20: entry points under the no-panic sweep (no functional claim here: they must not panic for any field values) ----
 //@ func (k Keeper) GenesisVestingsSummary(goCtx, req) (r0, r1)
+//@   panic_requires summaryStateSane()
 //@   ensures req != nil && r1 == nil ==> r0 != nil && r0.VestingInAccountsAmount == sumAccountsOf(true, false, $trListN)
 //@     && r0.DelegatedVestingAmount == r0.VestingInAccountsAmount - sumAccountsOf(true, true, $trListN)
 //@     && r0.VestingAllAmount == r0.VestingInAccountsAmount + r0.VestingInPoolsAmount
-//@   prop C17 C20x
+//@     && r0.VestingInPoolsAmount == sumGenStoreOf(ownerCount($pFound))
+//@   prop C17 C20
 //@ func (k Keeper) Params(c, req) (r0, r1)
 //@   prop C20
 //@ func (k Keeper) VestingType(goCtx, req) (r0, r1)
 //@   prop C20
 //@ func (k Keeper) VestingsSummary(goCtx, req) (r0, r1)
+//@   panic_requires summaryStateSane()
 //@   ensures req != nil && r1 == nil ==> r0 != nil && r0.VestingInAccountsAmount == sumAccountsOf(false, false, $trListN)
 //@     && r0.DelegatedVestingAmount == r0.VestingInAccountsAmount - sumAccountsOf(false, true, $trListN)
 //@     && r0.VestingAllAmount == r0.VestingInAccountsAmount + r0.VestingInPoolsAmount
 //@     && r0.VestingInPoolsAmount == $bal[modaddr("cfevesting")][$vestingDenom]
-//@   prop C17 C20x
+//@   prop C17 C20
 //@ func (k msgServer) CreateVestingAccount(goCtx, msg) (r0, r1)
 //@   requires msg != nil
 //@   prop C20
